@@ -887,6 +887,9 @@ func c09XmlRun(c *Ctx, st *h.Stage, cases []*c09XmlCase) error {
 			return fmt.Errorf("c09 xml: agree: %s", msg5)
 		}
 		known := func() string {
+			if k := c09XmlLexerKnown(cs.lexIn, inToks); k != "" {
+				return k
+			}
 			if cs.cfg.svg && !strings.Contains(cs.cfg.name, "bare=true") {
 				if k := c09XmlKnown(cs.in); k != "" {
 					return k
@@ -897,12 +900,17 @@ func c09XmlRun(c *Ctx, st *h.Stage, cases []*c09XmlCase) error {
 			} else if c09XmlHas(contract, "hazard") {
 				return "K-C09-Xml-1"
 			}
-			return c09XmlLexerKnown(cs.lexIn, inToks)
+			return ""
 		}
 		report := func(what, detail string) {
 			if k := known(); k != "" {
 				c.R.ExcludedKnown++
 				st.Tag("known=" + k)
+				if d := os.Getenv("C09XML_DEBUG"); d != "" {
+					f, _ := os.OpenFile(filepath.Join(d, "excluded.txt"), os.O_APPEND|os.O_CREATE|os.O_WRONLY, 0o644)
+					fmt.Fprintf(f, "%s %s | %s\n  IN  %q\n  OUT %q\n", k, cs.cfg.name, what, trunc(cs.in, 600), trunc(cs.out, 600))
+					f.Close()
+				}
 				return
 			}
 			c.R.Add(h.Finding{Stage: st.Name, Kind: "fail", What: what, Input: h.Q(trunc(cs.in, 400)), Hex: h.Hex(trunc(cs.in, 200000)), Config: cs.cfg.name, Impl: h.Q(trunc(cs.out, 400)) + " " + detail})
@@ -920,6 +928,11 @@ func c09XmlRun(c *Ctx, st *h.Stage, cases []*c09XmlCase) error {
 			st.Tag("lexer-contract=holds")
 		} else {
 			st.Tag("lexer-contract=" + strings.Join(contract, "+"))
+			if d := os.Getenv("C09XML_DEBUG"); d != "" && known() == "" {
+				f, _ := os.OpenFile(filepath.Join(d, "contract.txt"), os.O_APPEND|os.O_CREATE|os.O_WRONLY, 0o644)
+				fmt.Fprintf(f, "%v %s\n  IN  %q\n", contract, cs.cfg.name, trunc(cs.in, 400))
+				f.Close()
+			}
 		}
 		c09XmlHazardTags(st, cs, outToks)
 		if !outOK {
@@ -958,6 +971,87 @@ func c09XmlRun(c *Ctx, st *h.Stage, cases []*c09XmlCase) error {
 		}
 	}
 	return nil
+}
+
+// ---------- tie of the SVG writer model (Model/C09SvgText.lean) to svg.go ----------
+
+func c09XmlSvgModel(c *Ctx, n int) error {
+	st := c.R.StartStage("c09-xml-svgmodel", "model.c09.xml.svgtext / svgcdata / svgattr (Lean model of the TextToken, CDATAToken and attribute-value writers of svg.go with bw.n = 0..3) against svg.Minify on documents `<svg><text>]]<!--c-->DATA</text></svg>`, `…<![CDATA[TXT]]>…`, `<svg><g id=\"BODY\"/></svg>` (no sub-minifier registered); DATA/TXT/BODY over the hazard alphabet; non-trivial = the written bytes differ from the source bytes")
+	defer st.End()
+	bare := minify.New()
+	run := func(in string) (string, bool) {
+		var w bytes.Buffer
+		var err error
+		if crash := h.Safely(20*time.Second, func() { err = (&minsvg.Minifier{}).Minify(bare, &w, strings.NewReader(in), nil) }); crash != "" || err != nil {
+			return "", false
+		}
+		return w.String(), true
+	}
+	isWsOnly := func(s string) bool { return strings.Trim(s, " \t\n\r\f") == "" }
+	var cases []h.Case
+	for k := 0; k < n; k++ {
+		r := c.Rng.Fork()
+		pre := r.Pick([]string{"", "", "]", "]]", "]]]"})
+		sep := ""
+		if pre != "" {
+			sep = "<!--c-->"
+		}
+		switch k % 3 {
+		case 0:
+			var sb strings.Builder
+			for i := 0; i < 1+r.Intn(6); i++ {
+				sb.WriteString(r.Pick([]string{"]", "]]", ">", "&gt;", "&#62;", " ", "  ", "\n", "\t ", "x", "y z", "&amp;", "&lt;", "&#60;", "&#38;", "&#32;", "&#10;", "&quot;", "&#x26;#60;", "&e;", "\f", "é"}))
+			}
+			data := sb.String()
+			if isWsOnly(data) {
+				continue
+			}
+			out, ok := run("<svg><text>" + pre + sep + data + "</text></svg>")
+			if !ok || !strings.HasPrefix(out, "<svg><text>"+pre) || !strings.HasSuffix(out, "</text></svg>") {
+				st.Tag("skipped")
+				continue
+			}
+			got := out[len("<svg><text>"+pre) : len(out)-len("</text></svg>")]
+			st.Tag("writer=text")
+			cases = append(cases, h.Case{Line: "model.c09.xml.svgtext " + h.Int(int64(len(pre))) + " " + h.HexS(data), Key: fmt.Sprintf("text n=%d %q", len(pre), data), InHex: h.HexS(data), Want: []byte(got), Nontrivial: got != data})
+		case 1:
+			var sb strings.Builder
+			for i := 0; i < r.Intn(7); i++ {
+				sb.WriteString(r.Pick([]string{"]", "]]", ">", "<", "<", "&", " ", "  ", "\n", "x", "y z", "&amp;", "]>", "\t", "é"}))
+			}
+			txt := strings.ReplaceAll(sb.String(), "]]>", "]] >")
+			out, ok := run("<svg><text>" + pre + sep + "<![CDATA[" + txt + "]]></text></svg>")
+			if !ok || !strings.HasPrefix(out, "<svg><text>"+pre) || !strings.HasSuffix(out, "</text></svg>") {
+				st.Tag("skipped")
+				continue
+			}
+			got := out[len("<svg><text>"+pre) : len(out)-len("</text></svg>")]
+			st.Tag("writer=cdata")
+			cases = append(cases, h.Case{Line: "model.c09.xml.svgcdata " + h.Int(int64(len(pre))) + " " + h.HexS("<![CDATA["+txt+"]]>") + " " + h.HexS(txt), Key: fmt.Sprintf("cdata n=%d %q", len(pre), txt), InHex: h.HexS(txt), Want: []byte(got), Nontrivial: got != "<![CDATA["+txt+"]]>"})
+		default:
+			q := byte('"')
+			if r.Bool() {
+				q = '\''
+			}
+			body := c09XmlAttrBody(r, q)
+			out, ok := run("<svg><g id=" + string(q) + body + string(q) + "/></svg>")
+			if !ok || !strings.HasPrefix(out, "<svg><g id=") || !strings.HasSuffix(out, "/></svg>") {
+				st.Tag("skipped")
+				continue
+			}
+			got := out[len("<svg><g id=") : len(out)-len("/></svg>")]
+			// the lexer replaces TAB, LF and CR inside a quoted value by spaces before svg.go sees it
+			lexed := strings.Map(func(r rune) rune {
+				if r == '\t' || r == '\n' || r == '\r' {
+					return ' '
+				}
+				return r
+			}, body)
+			st.Tag("writer=attr")
+			cases = append(cases, h.Case{Line: "model.c09.xml.svgattr " + h.HexS(lexed), Key: fmt.Sprintf("attr %q", body), InHex: h.HexS(body), Want: []byte(got), Nontrivial: got != string(q)+body+string(q)})
+		}
+	}
+	return h.CompareAll(c.R, st, "svg writer model vs svg.Minify", cases)
 }
 
 // ---------- stages ----------
@@ -1043,6 +1137,10 @@ func c09XmlStages(c *Ctx) error {
 		return err
 	}
 	st.End()
+
+	if err := c09XmlSvgModel(c, n); err != nil {
+		return err
+	}
 
 	st = c.R.StartStage("c09-xml-big", "big documents: pieces of /repo/tests/{xml,svg}/corpus and _benchmarks/*.{xml,svg} (prolog removed) concatenated under one root with generated hazard fragments in between, plus every corpus document as it is; same judgement; non-trivial = output differs from input")
 	cases = nil
